@@ -304,16 +304,28 @@ class G:
         if c < 84 and depth > 0 and self.cfg.fns:
             return [self.fn_stmt(depth)]
         if c < 88 and self.in_loop and "break-continue" not in self.cfg.hazards:
-            cond = self.expr("bool", 2)
-            return [("if", cond, [("break",) if self.chance(50) else ("continue",)], None)]
+            return self.exit_stmt(lambda: ("break",) if self.chance(50) else ("continue",))
         if c < 92 and self.fn_ret and self.cfg.returns:
             k = self.fn_ret[-1]
-            cond = self.expr("bool", 2)
-            ret = ("return", self.expr(k, d)) if (k != "nil" or self.chance(50)) else ("return", None)
-            return [("if", cond, [ret], None)]
+            return self.exit_stmt(lambda: ("return", self.expr(k, d)) if (k != "nil" or self.chance(50)) else ("return", None))
         if c < 96 and self.cfg.lambdas:
             return [self.lambda_let(d)]
         return [("expr", self.expr("any", d))]
+
+    def exit_stmt(self, make):
+        """A break / continue / return in one of the positions it can take: alone in a then-arm, at the end of a
+        then-arm or of an else-arm after other statements (the statements after the if then run with the block's
+        locals already dropped on one path only), or at the end of both arms."""
+        cond = self.expr("bool", 2)
+        form = self.i(0, 9)
+        if form < 4:
+            return [("if", cond, [make()], None)]
+        if form < 6:
+            return [("if", cond, self.block(1, self.i(1, 2)) + [make()], None)]
+        if form < 9:
+            then = self.block(1, self.i(0, 2))
+            return [("if", cond, then, self.block(1, self.i(0, 2)) + [make()])]
+        return [("if", cond, self.block(1, self.i(0, 1)) + [make()], self.block(1, self.i(0, 1)) + [make()])]
 
     def let_stmt(self, d):
         k = self.pick(KINDS)
@@ -1133,6 +1145,13 @@ class GE(G):
 
     def raise_source(self, depth):
         """Statements that (probably) raise. Returns (stmts, error class name or None)."""
+        stmts, cls = self.raise_source0(depth)
+        if self.fn_ret and len(stmts) == 1 and stmts[0][0] == "expr" and self.chance(30):
+            # the raising expression is the operand of a return: it is evaluated while the try is still active
+            stmts = [("return", stmts[0][1])]
+        return stmts, cls
+
+    def raise_source0(self, depth):
         c = self.i(0, 99)
         if c < 22:
             cls = self.err_class()
@@ -1241,6 +1260,15 @@ class GE(G):
     def scenario(self):
         out = self.prelude()
         out.extend(self.stmts(self.i(2, 8), 3))
+        if self.chance(50):
+            # a last raise, caught at module level or not: whatever handler bookkeeping the tries above left behind
+            # (a try left by break / continue / return) decides where it goes
+            final = ("raise", ("call", ("var", "Error"), [("str", "final")]))
+            if self.chance(70):
+                out.append(("try", [final], [("e", None, [("print", ("prop", ("var", "e"), "message"))])]))
+                out.append(("print", ("str", "end")))
+            else:
+                out.append(final)
         return out
 
 
@@ -2396,3 +2424,14 @@ def strings_program(cfg=None):
     def strat(draw):
         return GS(draw, cfg).scenario(allow_module=False)["main"]
     return strat()
+
+
+# ======================================================================================
+# fiber profile: process networks (pbt/kpn.py, pbt/kpn_many.py) as plain programs for the differential checks
+# ======================================================================================
+def fiber_program(cfg=None):
+    from .. import kpn, kpn_many
+    hz = tuple(cfg.hazards) if cfg is not None else ()
+    return st.one_of(kpn.network(False, hz).map(kpn.build_program),
+                     kpn.network(True, hz).map(kpn.build_program),
+                     kpn_many.many_network(hz).map(kpn_many.build_program))
